@@ -45,6 +45,10 @@ func (s *Sim) result(prop string, run int, seed int64, steps int) *RunResult {
 			res.Answered++
 		}
 		kind := q.Spec.Kind
+		if q.Spec.Synth != nil {
+			res.Statuses[fmt.Sprintf("%s/synthesised-%d", kind, q.Spec.Synth.Status)]++
+			continue
+		}
 		if q.FrontOnly {
 			res.Statuses[kind+"/refused-by-front-end"]++
 			continue
@@ -57,7 +61,7 @@ func (s *Sim) result(prop string, run int, seed int64, steps int) *RunResult {
 			faults += v
 		}
 	}
-	res.Nontrivial = faults > 0 || s.Probes["cas_lost"] > 0
+	res.Nontrivial = faults > 0 || s.Probes["cas_lost"] > 0 || s.Probes["synth_outcomes"] > 0
 	sig := s.CommitSignature() + fmt.Sprint(s.Stats)
 	sum := sha256.Sum256([]byte(sig))
 	res.Sig = hex.EncodeToString(sum[:8])
